@@ -846,7 +846,7 @@ class Interp:
             return lambda ctx, fr: None
         mst = mask_literals(st)
         # diverging call: `callee(args) -> unwind continue;`
-        mdiv = re.search(r'\) -> unwind [\w() ]+;$', mst)
+        mdiv = re.search(r'\) -> (unwind [\w() ]+|bb\d+);$', mst)
         if mdiv:
             k = mdiv.start()
             j = self._open_paren(mst, k)
